@@ -16,3 +16,6 @@ Definition plane_rot (j : nat) (t : R) : mat3 R :=
   | 1%nat => M3 (cos t) 0 (sin t)  0 1 0  (- sin t) 0 (cos t)
   | _ => M3 (cos t) (- sin t) 0  (sin t) (cos t) 0  0 0 1
   end.
+
+(* rotation about x with cosine c and sine s (witnesses for the snapping zones) *)
+Definition rot_x (c s : R) : mat3 R := M3 1 0 0 0 c (- s) 0 s c.
